@@ -52,7 +52,10 @@ def check_file(chk, p, r, pn):
         if b["outfile"] not in prod:
             chk.fail_oracle("graph:outfile-not-a-target", f"{b['builder']}/{b['app']}: {b['outfile']} is not produced by any statement", {"project": p})
             return
-    # paths chosen by laze lie under the build directory
+    # paths chosen by laze lie under the build directory. A downloaded module with an explicit `srcdir:` is downloaded where the USER
+    # said (its tag file is `<srcdir>/.laze-downloaded`): that directory is not laze's choice
+    user_dl_dirs = [str(m["srcdir"]).rstrip("/") for kind, m, path in projcheck.yaml_modules(p)
+                    if isinstance(m, dict) and m.get("download") and isinstance(m.get("srcdir"), str)]
     for b in pn["builds"]:
         rn = b["rule"]
         is_compile = rn != "phony" and not rn.startswith(("LINK_", "POST_LINK_", "BUILD_", "GIT_DOWNLOAD_", "GIT_PATCH_"))
@@ -64,6 +67,8 @@ def check_file(chk, p, r, pn):
                     src = b["inputs"][0] if b["inputs"] else ""
                     if is_compile and (src.startswith("/") or ".." in src.split("/")):
                         continue          # not a plain relative source: outside the statement of C06
+                    if is_dl and any(o.startswith(d + "/") for d in user_dl_dirs):
+                        continue
                     chk.fail_oracle("graph:outside-build-dir", f"{o} (rule {rn}) is not under {want}", {"project": p})
                     return
 
